@@ -1,6 +1,271 @@
-//! `vh names`: see /verif/docs/MODULE_CONTRACT.md
+//! `vh names`: compile sources through the library entry point and project everything the C18 property
+//! talks about from the *binary* font (read-fonts only; nothing is interpreted here):
+//!   name records, fvar axis/instance name ids, STAT name ids, GSUB/GPOS feature-parameter name ids.
+//!
+//! stdin: one JSON request per line  {"tag": .., "src": "<designspace|ufo>", "threads": n, "rounds": k}
+//!        (`rounds` > 1 compiles the same source k times in this process; every round is projected)
+//! stdout: one JSON line per request
+//!   {"tag", "outcome": "ok"|"error"|"panic", "message", "pid", "fontc_version",
+//!    "proj": {...} (first round), "same_in_process": bool, "others": [proj of rounds that differ]}
+//! `vh names --font <file.ttf>` projects an existing font; `vh names --version` prints fontc's version string.
+//!
+//! The oracle (fallback rules, id allocation, reference integrity) lives in spec/Names.tla + checks/c18.py.
 
-pub fn run(_args: &[String]) -> i32 {
-    eprintln!("vh names: not implemented yet");
-    2
+use std::io::{BufRead, Write};
+
+use serde::Deserialize;
+use serde_json::{Value, json};
+use write_fonts::read::{
+    FontRef, TableProvider,
+    tables::{
+        layout::{FeatureList, FeatureParams},
+        stat::AxisValue,
+    },
+};
+
+use crate::compile::{CompileReq, compile};
+
+#[derive(Debug, Default, Clone, Deserialize)]
+#[serde(default)]
+struct Req {
+    tag: String,
+    src: String,
+    threads: usize,
+    rounds: usize,
+    /// keep the font of the first round here (optional)
+    out: String,
+}
+
+fn feature_params(list: &FeatureList, table: &str, out: &mut Vec<Value>) {
+    for rec in list.feature_records() {
+        let tag = rec.feature_tag().to_string();
+        let Ok(feature) = rec.feature(list.offset_data()) else {
+            out.push(json!({"table": table, "tag": tag, "kind": "unreadable"}));
+            continue;
+        };
+        match feature.feature_params() {
+            None => {}
+            Some(Err(e)) => {
+                out.push(json!({"table": table, "tag": tag, "kind": "unreadable", "message": e.to_string()}))
+            }
+            Some(Ok(FeatureParams::StylisticSet(p))) => out.push(json!({"table": table, "tag": tag, "kind": "ss",
+                "ui_name_id": p.ui_name_id().to_u16()})),
+            Some(Ok(FeatureParams::CharacterVariant(p))) => out.push(json!({"table": table, "tag": tag, "kind": "cv",
+                "feat_ui_label_name_id": p.feat_ui_label_name_id().to_u16(),
+                "feat_ui_tooltip_text_name_id": p.feat_ui_tooltip_text_name_id().to_u16(),
+                "sample_text_name_id": p.sample_text_name_id().to_u16(),
+                "num_named_parameters": p.num_named_parameters(),
+                "first_param_ui_label_name_id": p.first_param_ui_label_name_id().to_u16()})),
+            Some(Ok(FeatureParams::Size(p))) => out.push(json!({"table": table, "tag": tag, "kind": "size",
+                "design_size": p.design_size(), "identifier": p.identifier(), "name_entry": p.name_entry(),
+                "range_start": p.range_start(), "range_end": p.range_end()})),
+        }
+    }
+}
+
+/// Everything C18 looks at, measured from the binary.
+pub fn project(data: &[u8]) -> Result<Value, String> {
+    let font = FontRef::new(data).map_err(|e| format!("cannot parse font: {e}"))?;
+    let tables: Vec<String> = font
+        .table_directory
+        .table_records()
+        .iter()
+        .map(|r| r.tag().to_string())
+        .collect();
+
+    // name: records in table order
+    let mut name = Vec::new();
+    let mut name_sorted = true;
+    if let Ok(n) = font.name() {
+        let mut prev: Option<(u16, u16, u16, u16)> = None;
+        for r in n.name_record() {
+            let (s, ok) = match r.string(n.string_data()) {
+                Ok(s) => (s.chars().collect::<String>(), true),
+                Err(_) => (String::new(), false),
+            };
+            let key = (r.platform_id(), r.encoding_id(), r.language_id(), r.name_id().to_u16());
+            if let Some(p) = prev
+                && p >= key
+            {
+                name_sorted = false;
+            }
+            prev = Some(key);
+            name.push(json!({"id": key.3, "platform": key.0, "encoding": key.1, "language": key.2,
+                "string": s, "readable": ok, "length": r.length()}));
+        }
+    }
+
+    // fvar
+    let mut fvar = Value::Null;
+    if let Ok(t) = font.fvar() {
+        let mut axes = Vec::new();
+        let mut insts = Vec::new();
+        if let Ok(ax) = t.axes() {
+            for a in ax {
+                axes.push(json!({"tag": a.axis_tag().to_string(), "name_id": a.axis_name_id().to_u16(),
+                    "min": a.min_value().to_f64(), "default": a.default_value().to_f64(),
+                    "max": a.max_value().to_f64(), "flags": a.flags()}));
+            }
+        }
+        if let Ok(instances) = t.instances() {
+            for i in instances.iter().flatten() {
+                insts.push(json!({"subfamily_name_id": i.subfamily_name_id.to_u16(),
+                    "post_script_name_id": i.post_script_name_id.map(|n| n.to_u16()),
+                    "coords": i.coordinates.iter().map(|c| c.get().to_f64()).collect::<Vec<_>>()}));
+            }
+        }
+        fvar = json!({"axes": axes, "instances": insts, "instance_count": t.instance_count()});
+    }
+
+    // STAT
+    let mut stat = Value::Null;
+    if let Ok(t) = font.stat() {
+        let mut axes = Vec::new();
+        if let Ok(recs) = t.design_axes() {
+            for a in recs {
+                axes.push(json!({"tag": a.axis_tag().to_string(), "name_id": a.axis_name_id().to_u16(),
+                    "ordering": a.axis_ordering()}));
+            }
+        }
+        let mut values = Vec::new();
+        if let Some(Ok(arr)) = t.offset_to_axis_values() {
+            for v in arr.axis_values().iter() {
+                match v {
+                    Ok(v) => {
+                        let detail = match &v {
+                            AxisValue::Format1(f) => json!({"axis": f.axis_index(), "value": f.value().to_f64()}),
+                            AxisValue::Format2(f) => json!({"axis": f.axis_index(), "value": f.nominal_value().to_f64(),
+                                "min": f.range_min_value().to_f64(), "max": f.range_max_value().to_f64()}),
+                            AxisValue::Format3(f) => json!({"axis": f.axis_index(), "value": f.value().to_f64(),
+                                "linked": f.linked_value().to_f64()}),
+                            AxisValue::Format4(f) => json!({"axes": f.axis_values().iter()
+                                .map(|r| json!([r.axis_index(), r.value().to_f64()])).collect::<Vec<_>>()}),
+                        };
+                        values.push(json!({"format": v.format(), "name_id": v.value_name_id().to_u16(),
+                            "flags": v.flags().bits(), "detail": detail}));
+                    }
+                    Err(e) => values.push(json!({"format": 0, "unreadable": e.to_string()})),
+                }
+            }
+        }
+        stat = json!({"axes": axes, "values": values,
+            "elided_fallback_name_id": t.elided_fallback_name_id().map(|n| n.to_u16())});
+    }
+
+    // layout feature parameters
+    let mut params = Vec::new();
+    if let Ok(gsub) = font.gsub()
+        && let Ok(list) = gsub.feature_list()
+    {
+        feature_params(&list, "GSUB", &mut params);
+    }
+    if let Ok(gpos) = font.gpos()
+        && let Ok(list) = gpos.feature_list()
+    {
+        feature_params(&list, "GPOS", &mut params);
+    }
+
+    Ok(json!({"tables": tables, "name": name, "name_sorted": name_sorted, "fvar": fvar, "stat": stat,
+        "feature_params": params}))
+}
+
+fn one(req: &Req) -> Value {
+    let rounds = req.rounds.max(1);
+    let mut first: Option<Value> = None;
+    let mut others: Vec<Value> = Vec::new();
+    let mut wall = 0u128;
+    for round in 0..rounds {
+        let creq = CompileReq {
+            tag: req.tag.clone(),
+            src: req.src.clone(),
+            out: if round == 0 { req.out.clone() } else { String::new() },
+            threads: req.threads,
+            ..Default::default()
+        };
+        let (res, font) = compile(&creq);
+        wall += res.wall_ms;
+        let Some(bytes) = font else {
+            return json!({"tag": req.tag, "outcome": res.outcome, "message": res.message, "round": round,
+                "pid": std::process::id(), "wall_ms": wall});
+        };
+        let proj = match std::panic::catch_unwind(|| project(&bytes)) {
+            Ok(Ok(p)) => p,
+            Ok(Err(e)) => {
+                return json!({"tag": req.tag, "outcome": "unreadable", "message": e, "round": round,
+                    "pid": std::process::id(), "wall_ms": wall});
+            }
+            Err(p) => {
+                return json!({"tag": req.tag, "outcome": "unreadable",
+                    "message": format!("projection panicked: {}", crate::compile::panic_message(p)),
+                    "round": round, "pid": std::process::id(), "wall_ms": wall});
+            }
+        };
+        match &first {
+            None => first = Some(proj),
+            Some(f) => {
+                if *f != proj {
+                    others.push(proj);
+                }
+            }
+        }
+    }
+    json!({"tag": req.tag, "outcome": "ok", "message": "", "pid": std::process::id(),
+        "fontc_version": fontc::version(), "rounds": rounds, "proj": first,
+        "same_in_process": others.is_empty(), "others": others, "wall_ms": wall})
+}
+
+pub fn run(args: &[String]) -> i32 {
+    if std::env::var("VH_PANIC_VERBOSE").is_err() {
+        std::panic::set_hook(Box::new(|_| {}));
+    }
+    if args.first().map(|s| s.as_str()) == Some("--version") {
+        // the string fontc stamps into name id 5
+        println!("{}", fontc::version());
+        return 0;
+    }
+    if args.first().map(|s| s.as_str()) == Some("--font") {
+        let Some(path) = args.get(1) else {
+            eprintln!("usage: vh names --font <file>");
+            return 2;
+        };
+        return match std::fs::read(path).map_err(|e| e.to_string()).and_then(|d| project(&d)) {
+            Ok(v) => {
+                println!("{v}");
+                0
+            }
+            Err(e) => {
+                eprintln!("{e}");
+                2
+            }
+        };
+    }
+    let reader: Box<dyn BufRead> = match args.first() {
+        Some(path) => match std::fs::File::open(path) {
+            Ok(f) => Box::new(std::io::BufReader::new(f)),
+            Err(e) => {
+                eprintln!("cannot open {path}: {e}");
+                return 2;
+            }
+        },
+        None => Box::new(std::io::BufReader::new(std::io::stdin())),
+    };
+    let stdout = std::io::stdout();
+    for line in reader.lines() {
+        let Ok(line) = line else { break };
+        if line.trim().is_empty() {
+            continue;
+        }
+        let req: Req = match serde_json::from_str(&line) {
+            Ok(r) => r,
+            Err(e) => {
+                eprintln!("bad request: {e}");
+                return 2;
+            }
+        };
+        let res = one(&req);
+        let mut out = stdout.lock();
+        let _ = writeln!(out, "{res}");
+        let _ = out.flush();
+    }
+    0
 }
